@@ -99,3 +99,120 @@ def register(R):
         vid = I1.vehicle_id
         return Implies(r.vehicles.get(vid) == a.sim.vehicles.get(vid), r == a.sim)
     s.ensures("rejected_instruction_changes_nothing", no_trace, ("C09",))
+
+    # ------------------------------------------------------------ instruction stacks (C09: last generated wins)
+    DO = "nrel/hive/util/dict_ops.py::DictOps."
+    STK = MapTy(StrT, SeqTy(IU))
+    s = R.spec(DO + "add_to_stack_dict", arg_types={"xs": STK, "collection_id": StrT, "obj": IU}, ret=STK)
+    s.ensures("pushes_on_head", lambda a, r: And(
+        r.get(a.collection_id).is_some(),
+        r.get(a.collection_id).val().len() == Ite(a.xs.has(a.collection_id), a.xs.get(a.collection_id).val().len(), 0) + 1,
+        r.get(a.collection_id).val()[0] == a.obj,
+        forall([bound(StrT, "o_st")], Implies(bound(StrT, "o_st") != a.collection_id, r.get(bound(StrT, "o_st")) == a.xs.get(bound(StrT, "o_st"))))), ("C09",))
+    s.no_raise(("C09",))
+
+    s = R.spec(DO + "pop_from_stack_dict", arg_types={"xs": STK, "collection_id": StrT}, ret=TupleTy([OptTy(IU), STK]))
+
+    def pop_post(a, r):
+        stack = a.xs.get(a.collection_id)
+        nonempty = And(stack.is_some(), stack.val().len() > 0)
+        return And(Iff(r[0].is_some(), nonempty),
+                   # the instruction that takes effect is the head of the stack: the one pushed last
+                   Implies(nonempty, r[0] == some(stack.val()[0])))
+    s.ensures("pops_most_recent", pop_post, ("C09",))
+    s.no_raise(("C09",))
+
+    # ------------------------------------------------------------ StepSimulation.update
+    IGO = "nrel/hive/dispatcher/instruction_generator/instruction_generator_ops.py::"
+    s = R.spec(IGO + "generate_instructions")
+    s.opaque = True
+    s.assume_only("instruction generators are an open interface (any controller); only the shape of the result is used: "
+                  "a map of per-vehicle instruction stacks and the updated generators")
+    def stack_wf(a, r):
+        v_, k_ = bound(StrT, "v_sw"), bound(IntT, "k_sw")
+        st_ = r.instruction_stack.get(v_)
+        return forall([v_, k_], Implies(And(st_.is_some(), k_ >= 0, k_ < st_.val().len()), at(st_.val(), k_).vehicle_id == v_))
+    s.ensures("stacks_hold_their_own_vehicles_instructions", stack_wf)
+    s = R.spec(SSO + "log_instructions")
+    s.opaque = True
+    s.assume_only("files one INSTRUCTION report per instruction; returns None; no effect on the state")
+    s.returns_none = True
+    SS_ = "nrel/hive/state/simulation_state/update/step_simulation.py::StepSimulation."
+    s = R.spec(SS_ + "update_instruction_generators")
+    s.opaque = True
+    s.assume_only("rebuilds the generator table from the updated generators; no effect on the simulation state")
+    s = R.spec(SS_ + "ordered_instruction_generators", ret=SeqTy(AbstractTy("InstructionGenerator")))
+    s.opaque = True
+    s.assume_only("the generators in their configured order (tuple comprehension over an abstract generator table)")
+
+    uk = SS_ + "update"
+    s = R.spec(uk)
+    s.opaque = True
+    s.requires("wf", lambda a: wf(a.simulation_state)).requires("inv02", lambda a: inv02(a.simulation_state))
+
+    def ss_post(a, r):
+        s2 = r[0]
+        return And(wf(s2), inv02(s2),
+                   # every step advances the clock by exactly the configured step length (C15)
+                   s2.sim_time == a.simulation_state.sim_time + a.simulation_state.sim_timestep_duration_seconds,
+                   s2.sim_timestep_duration_seconds == a.simulation_state.sim_timestep_duration_seconds)
+    s.ensures("one_step", ss_post, ("C02", "C15", "C08"))
+    s.no_raise(("C15",))
+
+    def fi_inv(v, i, xs, v0):
+        kx, ky, j = bound(IntT, "k_fi"), bound(IntT, "l_fi"), bound(IntT, "j_fi")
+        fi = v.final_instructions
+        return And(
+            # one instruction per vehicle: ids of the chosen instructions are pairwise distinct ...
+            forall([kx, ky], Implies(And(kx >= 0, kx < ky, ky < fi.len()), at(fi, kx).vehicle_id != at(fi, ky).vehicle_id)),
+            # ... because each is the head of the stack of a key already visited, and stacks hold their own vehicle's instructions
+            forall([kx, j], Implies(And(kx >= 0, kx < fi.len(), j >= i, j < xs.len()), at(fi, kx).vehicle_id != at(xs, j))),
+            forall([kx], Implies(And(kx >= 0, kx < fi.len()), exists([j], And(j >= 0, j < i, at(xs, j) == at(fi, kx).vehicle_id)))))
+    R.loop(uk, "for", 0, props=("C09",), invariant=fi_inv, types={"final_instructions": SeqTy(IU)})
+
+    # ------------------------------------------------------------ Update.apply_update (whole step)
+    UPD = "nrel/hive/state/simulation_state/update/update.py::"
+    SUF = AbstractTy("SimulationUpdateFunction")
+
+    def pre_step_ok(recv, args, r):
+        """interface contract of a pre-step update (proved for the three shipped ones): keeps the state well formed,
+        the C02 counts matched, and does not touch the clock"""
+        s2 = Sym(SIM, r.ty.get(r.e, 0))
+        s1 = args[0]
+        return Implies(And(wf(s1), inv02(s1)), And(wf(s2), inv02(s2), s2.sim_time == s1.sim_time,
+                                                  s2.sim_timestep_duration_seconds == s1.sim_timestep_duration_seconds))
+    R.iface("SimulationUpdateFunction", "update", pre_step_ok)
+
+    RP = world.class_ty("RunnerPayload")
+    UP = world.class_ty("UpdatePayload")
+    s = R.spec(UPD + "_apply_fn")
+    s.opaque = True
+    s.requires("wf", lambda a: And(wf(a.p.runner_payload.s), inv02(a.p.runner_payload.s)))
+    s.hide = {"ids"}
+    s.ensures("keeps_invariants", lambda a, r: And(wf(r.runner_payload.s), inv02(r.runner_payload.s),
+              r.runner_payload.s.sim_time == a.p.runner_payload.s.sim_time,
+              r.runner_payload.s.sim_timestep_duration_seconds == a.p.runner_payload.s.sim_timestep_duration_seconds,
+              v_getfield(r.runner_payload, 'e') == v_getfield(a.p.runner_payload, 'e')), ("C02", "C15"))
+    s.no_raise(("C15",))
+
+    ak = UPD + "Update.apply_update"
+    s = R.spec(ak)
+    s.hide = {"ids"}
+    s.requires("wf", lambda a: And(wf(a.runner_payload.s), inv02(a.runner_payload.s)))
+
+    def au_post(a, r):
+        s0, s2 = a.runner_payload.s, r.s
+        return And(wf(s2), inv02(s2),
+                   s2.sim_time == s0.sim_time + s0.sim_timestep_duration_seconds,
+                   s2.sim_timestep_duration_seconds == s0.sim_timestep_duration_seconds,
+                   v_getfield(r, 'e') == v_getfield(a.runner_payload, 'e'))
+    s.ensures("one_step_keeps_counts_and_advances_clock", au_post, ("C02", "C15", "C08"))
+    s.no_raise(("C15",))
+
+    def au_inv(acc, i, xs, env):
+        s0 = env.runner_payload.s
+        sa = acc.runner_payload.s
+        return And(wf(sa), inv02(sa), sa.sim_time == s0.sim_time,
+                   sa.sim_timestep_duration_seconds == s0.sim_timestep_duration_seconds,
+                   v_getfield(acc.runner_payload, 'e') == v_getfield(env.runner_payload, 'e'))
+    R.loop(ak, "reduce", 0, acc_type=UP, props=("C02", "C15"), invariant=au_inv)
